@@ -76,6 +76,14 @@ func returnDesc(d *DPath) string {
 	if k, ok := r.(*ssa.Const); ok && k.Value == nil {
 		return "return nil"
 	}
+	// an error value the path has tested to be nil is nil
+	rt := d.Env.Term(r).String() // with call ordinals: two calls of one function are different values
+	for _, pc := range d.Conds {
+		a, flip := canonAtom(pc.Cond.String())
+		if a == "("+rt+" == nil)" && pc.Truth != flip {
+			return "return nil"
+		}
+	}
 	return "return err"
 }
 
